@@ -47,14 +47,18 @@ def run(tier, seed):
         ref_jobs.append({"kind": "demoor", "max_demand": kw["max_demand"], "mean": kw["demand_gamma_mean"], "cov": kw["demand_gamma_cov"]})
         plan.append(("demoor", kw))
     n_m = 5 if tier == "quick" else 24
-    for _ in range(n_m):
-        m = rng.randint(1, 4)
-        q = rng.randint(1, 3)
+    for jm in range(n_m):
+        # the first parameterisations always have >= 3 age classes with distinct slope coefficients (logit order / slope pairing visible)
+        m = [3, 4, 3][jm] if jm < 3 else rng.randint(1, 4)
+        q = [3, 2, 2][jm] if jm < 3 else rng.randint(1, 3)
         kw = {"max_demand": rng.choice([2, 6, 20]), "max_useful_life": m, "max_order_quantity": q,
               "useful_life_at_arrival_distribution_c_0": tuple(round(rng.uniform(-3, 3), 2) for _ in range(m - 1)),
               "useful_life_at_arrival_distribution_c_1": tuple(round(rng.uniform(-1, 1), 2) for _ in range(m - 1)),
               "weekday_demand_negbin_n": tuple(round(rng.uniform(0.3, 12), 1) for _ in range(7)),
               "weekday_demand_negbin_delta": tuple(round(rng.uniform(0.3, 8), 1) for _ in range(7))}
+        if jm < 3:
+            kw["max_demand"] = 2
+            kw["useful_life_at_arrival_distribution_c_1"] = tuple([0.8, -0.5, 0.3][: m - 1])
         if shipped.n_triples("mirjalili", kw) > 120000:
             continue
         impl_ops.append({"op": "probtab", "target": shipped.T["mirjalili"], "kwargs": kw, "full": True})
